@@ -131,9 +131,11 @@ class FakeFlows:
         torch.set_default_dtype(self._dtype)
 
 
-def make_model(dims, seed, cut=False):
+def make_model(dims, seed, cut=False, uprior=False):
     """2..3-d Gaussian likelihood, uniform prior on a box; with `cut` the prior is zero on part of the box
-    (x0 + x1 > 2), i.e. log_prior = -inf inside the bounds — a legal constrained model"""
+    (x0 + x1 > 2), i.e. log_prior = -inf inside the bounds — a legal constrained model; with `uprior` the prior is NOT
+    flat: density 1 + 0.8 (u0 - 1/2) in the unit hypercube (log_prior_unit_hypercube overridden, as in nessai's
+    examples/importance_nested_sampler/hypercube_prior.py), so logU != 0 and logW = logU - logQ != -logQ (seeded C03-c)"""
     from nessai.model import Model
 
     class M(Model):
@@ -147,7 +149,16 @@ def make_model(dims, seed, cut=False):
             if cut:
                 ok = ok & ((x[self.names[0]] + x[self.names[1]]) <= 2.0)
             lp = np.log(ok, dtype="float")
+            if uprior:
+                lp = lp + np.log1p(0.8 * ((x[self.names[0]] + 4.0) / 8.0 - 0.5))
             return lp - dims * math.log(8.0)
+
+        if uprior:
+            def log_prior_unit_hypercube(self, x):
+                u = self.unstructured_view(x)
+                inside = ~np.any((u < 0) | (u >= 1), axis=-1)
+                with np.errstate(all="ignore"):
+                    return np.log(inside, dtype="float") + np.log1p(0.8 * (x[self.names[0]] - 0.5))
 
         def log_likelihood(self, x):
             out = np.zeros(x.size)
@@ -195,7 +206,7 @@ def run_fake(cfg, seed, outdir, resume_after=None):
     np.random.seed(seed)
     torch.manual_seed(seed)
     dims = cfg["dims"]
-    model = make_model(dims, seed, cfg.get("cut", False))
+    model = make_model(dims, seed, cfg.get("cut", False), cfg.get("uprior", False))
     snaps = []
     with FakeFlows(dims, cfg["reparam"] == "logit", None) as ff:
         sampler = ImportanceNestedSampler(
@@ -230,7 +241,7 @@ def run_fake(cfg, seed, outdir, resume_after=None):
             del snaps[mid:]
             with open(os.path.join(outdir, "ckpt_mid.pkl"), "rb") as f:
                 sm = pickle.load(f)
-            sampler = ImportanceNestedSampler.resume_from_pickled_sampler(sm, make_model(dims, seed, cfg.get("cut", False)))
+            sampler = ImportanceNestedSampler.resume_from_pickled_sampler(sm, make_model(dims, seed, cfg.get("cut", False), cfg.get("uprior", False)))
             snaps.append(snapshot(sampler, "resumed"))
             np.random.seed(seed + 1)
             torch.manual_seed(seed + 1)
@@ -243,7 +254,7 @@ def run_fake(cfg, seed, outdir, resume_after=None):
             with open(os.path.join(outdir, "ckpt.pkl"), "rb") as f:
                 s2 = pickle.load(f)
             s2.resume_from_pickled_sampler  # noqa (attribute exists)
-            model2 = make_model(dims, seed, cfg.get("cut", False))
+            model2 = make_model(dims, seed, cfg.get("cut", False), cfg.get("uprior", False))
             s2 = ImportanceNestedSampler.resume_from_pickled_sampler(s2, model2)
             snaps.append(snapshot(s2, "resumed"))
         return snaps, level_c, sampler
@@ -427,6 +438,14 @@ def oracle_snapshot(ctx, snap, sampler_model, names, case, level_logq=None, tol=
             ctx.oracle_fail(site + ":logL", f"{name}: stored logL differs from the model at the physical point", case)
         if not np.allclose(recs["logW"], recs["logU"] - recs["logQ"], rtol=tol, atol=tol):
             ctx.oracle_fail(site + ":logW", f"{name}: logW != logU - logQ", case)
+        with np.errstate(all="ignore"):
+            lu = sampler_model.log_prior_unit_hypercube(recs)
+        if not np.allclose(lu, recs["logU"], rtol=1e-12, atol=1e-12):
+            ctx.oracle_fail(site + ":logU", f"{name}: stored logU differs from the model's unit-hypercube log-prior", case)
+        if not np.allclose(recs["logW"], lu - recs["logQ"], rtol=tol, atol=tol):
+            bad = int(np.argmax(np.abs(recs["logW"] - (lu - recs["logQ"]))))
+            ctx.oracle_fail(site + ":logW-vs-prior", f"{name}: stored log-weight is not the unit-hypercube log-prior minus the "
+                            f"meta-proposal log-density (sample {bad}: logW={recs['logW'][bad]}, logU-logQ={(lu - recs['logQ'])[bad]})", case)
         if logq is not None:
             from scipy.special import logsumexp
             if logq.shape != (n_tot, len(keys)):
@@ -454,6 +473,8 @@ CONFIGS = [
     dict(dims=2, nlive=40, levels=4, strict=False, replace_all=False, draw_constant=True, iid=True, reparam="logit", q=0.5, min_samples=15, save_log_q=False, weighted_kl=True, resume_mid=2),
     dict(dims=2, nlive=40, levels=4, strict=True, replace_all=False, draw_constant=True, iid=False, reparam=None, q=0.5, min_samples=15, save_log_q=True, weighted_kl=False, cut=True, resume_mid=1),
     dict(dims=2, nlive=30, levels=5, strict=True, replace_all=False, draw_constant=True, iid=False, reparam=None, q=0.5, min_samples=10, save_log_q=True, weighted_kl=True),
+    dict(dims=2, nlive=40, levels=4, strict=False, replace_all=False, draw_constant=True, iid=True, reparam=None, q=0.5, min_samples=15, save_log_q=True, weighted_kl=True, uprior=True),
+    dict(dims=2, nlive=40, levels=3, strict=True, replace_all=False, draw_constant=True, iid=False, reparam="logit", q=0.5, min_samples=15, save_log_q=False, weighted_kl=False, uprior=True, resume_mid=1),
 ]
 
 
@@ -496,7 +517,7 @@ def one_fake_run(ctx, cfg, seed, resume):
     ctx.traces += 1
     ctx.case(("fake", repr(cfg), seed, resume), True,
              {"cfg": cfg, "seed": seed, "snapshots": len(snaps), "samples_compared": nsamp, "ops": [o[:80] for o in ops[:4]]},
-             kind=f"tilt:strict={int(cfg['strict'])}:repl={int(cfg['replace_all'])}:iid={int(cfg['iid'])}:{cfg['reparam']}:cut={int(cfg.get('cut', False))}:mid-resume={int(bool(cfg.get('resume_mid')))}")
+             kind=f"tilt:strict={int(cfg['strict'])}:repl={int(cfg['replace_all'])}:iid={int(cfg['iid'])}:{cfg['reparam']}:cut={int(cfg.get('cut', False))}:uprior={int(cfg.get('uprior', False))}:mid-resume={int(bool(cfg.get('resume_mid')))}")
     ctx.hist["samples_compared"] += nsamp
 
 
@@ -511,7 +532,7 @@ def one_real_run(ctx, cfg, seed):
     case = {"kind": "neural-flow run", "cfg": cfg, "seed": seed}
     snaps = []
     try:
-        model = make_model(cfg["dims"], seed, cfg.get("cut", False))
+        model = make_model(cfg["dims"], seed, cfg.get("cut", False), cfg.get("uprior", False))
         sampler = ImportanceNestedSampler(
             model, nlive=cfg["nlive"], output=tmp, seed=seed, plot=False, checkpointing=False,
             min_samples=cfg["min_samples"], max_iteration=cfg["levels"], min_iteration=cfg["levels"],
@@ -567,7 +588,7 @@ def correspond(ctx):
         for ci, cfg in enumerate(CONFIGS):
             for s in range(nseeds):
                 one_fake_run(ctx, cfg, base + 17 * ci + s + 1, resume=(s % 2 == 0))
-        for ci, cfg in enumerate([CONFIGS[0], CONFIGS[6]] if ctx.quick else CONFIGS):
+        for ci, cfg in enumerate([CONFIGS[0], CONFIGS[6], CONFIGS[10]] if ctx.quick else CONFIGS):
             for s in range(ctx.scale(1, 3)):
                 one_real_run(ctx, cfg, base + 300 + 7 * ci + s)
     finally:
